@@ -172,6 +172,29 @@ theorem recursion_transparent (c : RecCfg V L E) (P : RHyps c) (h : List (REvent
   have := iterate_resumed c P ⟨nonce, .none⟩ n 0 [] _ hinv h0 (by simp [lastN, specVals]) hist idx hr
   exact ⟨this.1, this.2.2⟩
 
+/-- **recursion_memo** (H0-H3 + contract of `resume`).  After any history, once an iteration has taken `n` items, a later
+iteration that takes `m ≤ n` items (none of whose steps raises) is served entirely from the cache: `resume` is not
+called, nothing is computed and no file changes. -/
+theorem recursion_memo (c : RecCfg V L E) (P : RHyps c) (h : List (REvent E)) (n m nonce nonce' : Nat) (hm : m ≤ n)
+    (hne : ∀ j, j < m → Live c j → ∃ s, storedAt c j = some s) :
+    let fs := filesAfter c (h ++ [.take nonce n]) (fun _ => [])
+    let r := (REvent.take nonce' m).run c fs
+    r.ncomputed = 0 ∧ r.resumed = none ∧ r.files = fs := by
+  have h0 : Live c 0 := by intro m hm; omega
+  have hinv0 : Inv c (fun _ => []) := by intro i; exact ⟨fun _ _ _ => List.nil_prefix, fun _ => rfl⟩
+  have happ : ∀ (h : List (REvent E)) (fs0 : Files), filesAfter c (h ++ [.take nonce n]) fs0 = ((REvent.take nonce n).run c (filesAfter c h fs0)).files := by
+    intro h
+    induction h with
+    | nil => intro fs0; rfl
+    | cons e t ih => intro fs0; exact ih _
+  have hinv := filesAfter_inv c P h _ hinv0
+  have hcomp := (iterate_complete c P nonce n 0 [] _ hinv h0 (by simp [lastN, specVals])).2
+  simp only [happ]
+  apply iterate_hits c P ⟨nonce', .none⟩ m 0 [] _ h0
+  intro j _ hj hlj
+  obtain ⟨s, hs⟩ := hne j (by omega) hlj
+  exact ⟨s, hs, hcomp j s (Nat.zero_le _) (by omega) hlj hs⟩
+
 /-! ## concurrent callers -/
 
 /-- **lock_serialisable.**  With the lock taken before `pickle.load` and held until after `pickle.dump`, for every
